@@ -222,6 +222,46 @@ def merge(results):
     return out
 
 
+def _enum_chunk(args):
+    """Runs in a spawned interpreter: evaluates a slice of an explicit list of cases with the check's own function."""
+    prop, cases = args
+    _quiet()
+    mod = importlib.import_module(f"checks.{prop}")
+    ctx = Ctx(prop)
+    col = _Collector()
+    for case in cases:
+        try:
+            info = mod.check(case, ctx)
+        except Violation as v:
+            if col.res["failure"] is None:
+                col.res["failure"] = {"case": jsonable(case), "what": v.what, "details": jsonable(v.details)}
+            continue
+        except Exception:  # noqa: BLE001
+            col.res["harness_error"] = traceback.format_exc()
+            break
+        info = dict(info or {})
+        info["classes"] = ["enumerated"] + [c for c in info.get("classes", []) if c.startswith(("op:", "rule:", "shift:", "mode:"))]
+        col.record(case, info)
+    res = col.finish(ctx)
+    res["samples"] = res["samples"][:2]
+    return res
+
+
+def enumerate_cases(prop, cases, procs=16):
+    """Evaluate an explicit (finite, exhaustive) list of cases with `checks.<prop>.check`, sharded over processes.
+    Returns the merged result structure of a shard (with exhaustive=True)."""
+    cases = list(cases)
+    k = max(1, min(procs, len(cases) // 8 or 1))
+    chunks = [cases[i::k] for i in range(k)]
+    ctx = mp.get_context("spawn")
+    with ctx.Pool(k) as pool:
+        outs = pool.map(_enum_chunk, [(prop, c) for c in chunks], chunksize=1)
+    merged = merge(outs)
+    merged["nontrivial"] = sorted(merged["nontrivial"])
+    merged["exhaustive"] = True
+    return merged
+
+
 def write_replay(prop, failure, seed, tier):
     os.makedirs(os.path.join(HERE, "replays"), exist_ok=True)
     name = f"{prop}-{digest(failure['case'])[:12]}.json"
